@@ -1,4 +1,5 @@
 """C13 - initial surface reconstruction: faithful closed mesh or clean failure (structural clauses)."""
+import re
 from .. import e2
 from ..model import walk, strip, is_call, call_obj, call_args, render, short, always_exits, AnalysisBroken
 from .c10 import product_fns
@@ -20,6 +21,8 @@ def declare(rep):
     rep.rule("C13.validated-return", "triangulate_surface returns a cell only after initialize_cell_properties(check=true) on that path", floor=1)
     rep.rule("C13.retry-bound", "the retry loop has a literal bound and its failure exit throws intialization_exception", floor=1)
     rep.rule("C13.validation-steps", "initialize_cell_properties(true) passes through generate_edge_set, throws on !is_manifold(), and orients the normals", floor=3)
+    rep.rule("C13.manifold-test", "cell::is_manifold returns false unless every edge has exactly two faces AND V - E + F == 2 over the live nodes, edges and faces (pinched vertices and multi-shell surfaces pass the edge test alone)", floor=2)
+    rep.rule("C13.poisson-grid-size", "the grid in which accepted samples are looked up has a voxel size >= the minimum distance handed to poisson_disk_sampling: get_neighborhood only visits the 27 surrounding voxels", floor=2)
     rep.rule("C13.parallel-handler", "the per-cell triangulation runs under parallel_exception_handler", floor=1)
     rep.rule("C13.noexcept-escape", "no noexcept function on the start-up cone lets a callee's exception escape", floor=40)
     rep.rule("C13.lost-update", "on the start-up cone no range-for mutates a by-value copy of a mesh element whose result is discarded (e.g. the orientation flip must act on the faces themselves)", floor=20)
@@ -32,6 +35,8 @@ def run(rep, prog, tier):
         declare(rep)
     validated_return(rep, prog)
     validation_steps(rep, prog)
+    manifold_test(rep, prog)
+    poisson_grid_size(rep, prog)
     parallel_handler(rep, prog)
     X = e2.Exceptions(prog)
     noexcept_escape(rep, prog, X, ["simulation_initializer::simulation_initializer"], "C13.noexcept-escape")
@@ -262,6 +267,96 @@ def validation_steps(rep, prog):
         rep.violation("C13.validation-steps", prog, fn, None, "is_manifold test missing", "initialize_cell_properties(true) does not throw when is_manifold() is false")
 
 
+def manifold_test(rep, prog):
+    import sympy as sp
+    from .. import sym as S
+    rule = "C13.manifold-test"
+    fn = prog.fn("cell::is_manifold")
+    ev = S.SymEval(prog, fn)
+    V = ev.sym("this.node_lst_.size()") - ev.sym("this.free_node_queue_.size()")
+    E = ev.sym("this.edge_set_.size()")
+    F = ev.sym("this.face_lst_.size()") - ev.sym("this.free_face_queue_.size()")
+    want = sp.expand(V - E + F - 2)
+    euler = edges = None
+    for n in walk(fn["body"]):
+        if n.get("k") != "IfStmt":
+            continue
+        then = n.get("then") or {}
+        rets = [r for r in walk(then) if r.get("k") == "ReturnStmt"]
+        if not rets or not all(render(r.get("value") or {}).strip() in ("false", "0") for r in rets):
+            continue
+        c = strip(n["cond"])
+        neg = False
+        while c.get("k") == "UnaryOperator" and c.get("op") == "!":
+            neg = not neg
+            c = strip(c["c"][0])
+            while c.get("k") == "ParenExpr":
+                c = strip(c["c"][0])
+        if c.get("k") == "BinaryOperator" and c.get("op") in ("!=", "=="):
+            if (c["op"] == "!=") == neg:
+                continue
+            try:
+                d = sp.expand(sp.sympify(ev.ev(c["c"][0])) - sp.sympify(ev.ev(c["c"][1])))
+            except S.Decline:
+                continue
+            d = d.subs({a: sp.Symbol(re.sub(r"^trunc_\w+\((.*)\)$", r"\1", a.name), real=True) for a in d.free_symbols})
+            if sp.expand(d - want) == 0 or sp.expand(d + want) == 0:
+                euler = n
+        if neg and is_call(c) and c.get("callee") in ("std::all_of",) and ("is_manifold" in render(c) or "is_manifold" in __import__("json").dumps(c)) and "edge_set_" in render(c):
+            edges = n
+    if edges is not None:
+        rep.ok(rule, prog, fn, edges, "returns false unless every edge of edge_set_ has exactly two faces")
+    else:
+        rep.violation(rule, prog, fn, None, "edge test missing in is_manifold", "cell::is_manifold no longer returns false when some edge of edge_set_ is not shared by exactly two faces")
+    if euler is not None:
+        rep.ok(rule, prog, fn, euler, "returns false unless V - E + F == 2 with V, F the live nodes / faces and E = edge_set_.size()")
+    else:
+        rep.violation(rule, prog, fn, None, "Euler characteristic not tested",
+                      "cell::is_manifold does not return false when (live nodes) - (edges) + (live faces) != 2: a surface in which every edge has two faces but a vertex is pinched, or which consists of several shells "
+                      "(3F = 2E holds for all of them), is accepted by initialize_cell_properties and handed to the solver")
+
+
+def poisson_grid_size(rep, prog):
+    import sympy as sp
+    from .. import sym as S
+    rule = "C13.poisson-grid-size"
+    n_sites = 0
+    for fn in product_fns(prog):
+        if not isinstance(fn.get("body"), dict):
+            continue
+        for c in walk(fn["body"]):
+            if not (is_call(c) and c.get("callee") == "poisson_sampling::poisson_disk_sampling"):
+                continue
+            n_sites += 1
+            args = call_args(c)
+            g = strip(args[1])
+            ev = S.SymEval(prog, fn)
+            vs = None
+            if g.get("k") == "DeclRefExpr":
+                d = ev._var_decl(g["ref"]["did"])
+                if isinstance(d, dict):
+                    ctor = [x for x in walk(d.get("init") or {}) if x.get("k") in ("CXXConstructExpr", "CXXTemporaryObjectExpr") and (x.get("t") or "").startswith("uspg_4d") and len(x.get("c", [])) >= 7]
+                    if ctor:
+                        vs = ctor[0]["c"][6]
+            if vs is None:
+                raise AnalysisBroken("%s: construction of the look-up grid of poisson_disk_sampling not found" % prog.loc(fn, c))
+            try:
+                v = sp.sympify(ev.ev(vs))
+                L = sp.sympify(ev.ev(args[2]))
+            except S.Decline as e:
+                raise AnalysisBroken("%s: %s" % (prog.loc(fn, c), e))
+            ratio = sp.simplify(v / L)
+            if ratio.is_number and ratio >= 1:
+                rep.ok(rule, prog, fn, c, "look-up grid voxel size = %s x the minimum distance" % ratio)
+            else:
+                rep.violation(rule, prog, fn, vs, "look-up grid finer than the minimum distance",
+                              "%s: the grid passed as second argument of poisson_disk_sampling is built with voxel size %s while samples closer than %s must be rejected (ratio %s): get_neighborhood returns the content of the 3x3x3 "
+                              "block around the candidate only, so accepted samples that are two voxels away but closer than the minimum distance are never compared - the cloud contains pairs closer than l_min"
+                              % (fn["qn"], short(vs, 40), short(args[2], 30), ratio))
+    if n_sites == 0:
+        raise AnalysisBroken("no call of poisson_disk_sampling found")
+
+
 def parallel_handler(rep, prog):
     fn = prog.fn("simulation_initializer::run")
     from .. import e6
@@ -273,6 +368,14 @@ def parallel_handler(rep, prog):
                 if is_call(n) and n.get("callee") == "simulation_initializer::triangulate_surface":
                     ok = True
                     rep.ok("C13.parallel-handler", prog, fn, r["node"], "triangulate_surface is called from the callable handed to parallel_exception_handler")
+    # the handler itself must hand the worker's exception on unchanged (catch(...) + current_exception, rethrown after the region)
+    from . import c15
+    for h in prog.fns("parallel_exception_handler"):
+        if not isinstance(h.get("body"), dict):
+            continue
+        for r in e6.parallel_regions(prog, h):
+            if "omp" in r["node"]:
+                c15.eptr(rep, prog, h, r["node"], rule="C13.parallel-handler")
     if not ok:
         others = [n for n in walk(fn["body"]) if is_call(n) and n.get("callee") == "simulation_initializer::triangulate_surface"]
         rep.violation("C13.parallel-handler", prog, fn, others[0] if others else None, "triangulation not under the exception handler",
